@@ -128,9 +128,17 @@ clean_ok = (s1 == s0)
 fault_ok = (s2 == s0) and (s3 == s0)
 again_ok = (again == base)
 Vertex.NEIGHBOR_CACHING = True
-c1 = neighbors(w, 1)
+def nb2(x):
+    out = []
+    for dd in (0, 1):
+        try:
+            out.append((neighbors(x, dd), None))
+        except Exception as exc:
+            out.append((None, type(exc).__name__))
+    return out
+c1 = nb2(w)
 Vertex.NEIGHBOR_CACHING = False
-c2 = neighbors(w, 1)
+c2 = nb2(w)
 coherent = (c1 == c2)
 '''
 
